@@ -1,0 +1,177 @@
+//go:build verif
+
+// Round 6, area L: quantile.go (the two-window e2e latency streams of nsqd, C13 / C18) and the sorter methods of aggregate.go.
+// Checked by nsqvc. Comment-only file. The perks Stream is a library: its calls are RECORDED (lib/trusted/r6L.spec, scoped to this
+// package); time is the ideal clock of std.spec (unixNano). See notes/area_r6L.md for what the engine cannot say (the address of an array
+// element is not a value: WHICH of the two streams a call went to is only known relative to the pointer field currentStream).
+
+package quantile
+
+//@ pred r6LFitsI64(x int) := -9223372036854775808 <= x && x <= 9223372036854775807
+
+// The monitor of a Quantile: the window index is 0 or 1 (what makes `streams[currentIndex]` and the `^ 0x1` toggle safe).
+//@ lock Quantile.Mutex guards currentIndex, lastMoveWindow, currentStream
+//@   invariant[index-is-0-or-1] self.currentIndex <= 1
+//@   invariant[current-stream] self.currentStream != nil
+//@   guarantee[window-start-never-moves-back] self.MoveWindowTime >= 0 ==> unixNano(self.lastMoveWindow) >= unixNano(old(self.lastMoveWindow))
+
+//@ func New(WindowTime time.Duration, Percentiles []float64) *Quantile
+//@   props C13
+//@   nochan
+//@   ensures[fresh] result != nil && fresh(result)
+//@   ensures[as-configured] result.currentIndex == 0 && result.MoveWindowTime == WindowTime / 2 && result.Percentiles == Percentiles && result.lastMoveWindow == lastNow
+//@   ensures[two-streams-for-the-percentiles] r6LSNews == old(r6LSNews) + 2 && result.currentStream != nil
+//@   modifies lastNow, r6LSCalls
+//@   loop 0
+//@     invariant[streams] 0 <= i && i <= 2 && r6LSNews == old(r6LSNews) + i
+//@     invariant[targets] i > 0 ==> r6LSTargets(r6LSNewLast) == Percentiles
+
+//@ func (q *Quantile) IsDataStale(now time.Time) bool
+//@   props C13
+//@   nochan
+//@   requires q != nil
+//@   ensures[exact] result == (unixNano(now) > unixNano(q.lastMoveWindow) + q.MoveWindowTime)
+//@   modifies
+
+// moveWindow: the index toggles between 0 and 1, the window start advances by exactly one half window, and exactly ONE stream is reset:
+// the one that becomes current (the stream written until now - the previous window - keeps its samples).
+//@ func (q *Quantile) moveWindow()
+//@   props C13
+//@   arith bv64
+//@   nochan
+//@   requires q != nil && q.currentIndex <= 1
+//@   requires[locked] holdsw(q, "Mutex")
+//@   ensures[toggled] q.currentIndex == 1 - old(q.currentIndex)
+//@   ensures[index-stays-0-or-1] q.currentIndex <= 1
+//@   ensures[advanced-by-half-a-window] unixNano(q.lastMoveWindow) == unixNano(old(q.lastMoveWindow)) + q.MoveWindowTime
+//@   ensures[only-the-new-current-is-reset] r6LSResets == old(r6LSResets) + 1 && r6LSResetOn == q.currentStream && q.currentStream != nil
+//@   ensures[nothing-else] r6LSInserts == old(r6LSInserts) && r6LSMerges == old(r6LSMerges) && r6LSNews == old(r6LSNews) && r6LSSamplesCalls == old(r6LSSamplesCalls) && r6LSResetsAtInsert == old(r6LSResetsAtInsert)
+//@   modifies q.currentIndex, q.currentStream, q.lastMoveWindow, r6LSCalls
+
+// Insert: ONE sample - the age of the message at the clock reading taken under the lock - goes into the current stream, after the window
+// was moved only as long as the clock reading lay beyond it; nothing is reset after the sample went in.
+//@ func (q *Quantile) Insert(msgStartTime int64)
+//@   props C13
+//@   nochan
+//@   requires q != nil
+//@   ensures[one-sample-into-the-current-stream] r6LSInserts == old(r6LSInserts) + 1 && r6LSInsertOn == atunlock(q.currentStream)
+//@   ensures[sample-is-the-age] r6LFitsI64(unixNano(lastNow) - msgStartTime) ==> r6LSInsertVal == unixNano(lastNow) - msgStartTime
+//@   ensures[not-reset-after-insertion] r6LSResetsAtInsert == r6LSResets
+//@   ensures[window-moves-only-with-time] r6LSResets == old(r6LSResets) ==> atunlock(q.lastMoveWindow) == atlock(q.lastMoveWindow) && atunlock(q.currentIndex) == atlock(q.currentIndex)
+//@   ensures[moved-only-when-expired] r6LSResets > old(r6LSResets) ==> unixNano(lastNow) > unixNano(atunlock(q.lastMoveWindow))
+//@   ensures[sample-in-the-window-of-now] unixNano(lastNow) <= unixNano(atunlock(q.lastMoveWindow)) + q.MoveWindowTime
+//@   ensures[one-reset-per-move] unixNano(atunlock(q.lastMoveWindow)) == unixNano(atlock(q.lastMoveWindow)) + (r6LSResets - old(r6LSResets)) * q.MoveWindowTime
+//@   ensures[nothing-merged] r6LSMerges == old(r6LSMerges) && r6LSNews == old(r6LSNews)
+//@   modifies q.currentIndex, q.currentStream, q.lastMoveWindow, lastNow, r6LSCalls
+//@   loop 0
+//@     invariant[locked] holdsw(q, "Mutex")
+//@     invariant[index] q.currentIndex <= 1
+//@     invariant[stream] q.currentStream != nil
+//@     invariant[clock] now == lastNow
+//@     invariant[moves] r6LSResets >= atloop(r6LSResets) && unixNano(q.lastMoveWindow) == unixNano(atloop(q.lastMoveWindow)) + (r6LSResets - atloop(r6LSResets)) * q.MoveWindowTime
+//@     invariant[unmoved] r6LSResets == atloop(r6LSResets) ==> q.lastMoveWindow == atloop(q.lastMoveWindow) && q.currentIndex == atloop(q.currentIndex)
+//@     invariant[moved-only-when-expired] r6LSResets > atloop(r6LSResets) ==> unixNano(now) > unixNano(q.lastMoveWindow)
+//@     invariant[quiet] r6LSInserts == atloop(r6LSInserts) && r6LSMerges == atloop(r6LSMerges) && r6LSNews == atloop(r6LSNews)
+
+// Merge: BOTH streams of the other aggregate are merged into this one - two Stream.Merge calls, each fed with the samples of the
+// Samples() call made right before it (indices: own current <- their current, own other <- their other; `^ 0x1` keeps both indices in 0..1:
+// bit-vector arithmetic) - and the window start becomes the later of the two. Both monitors are taken and released (q first), hence q != them.
+//@ func (q *Quantile) Merge(them *Quantile)
+//@   props C13
+//@   arith bv64
+//@   nochan
+//@   requires[two-aggregates] q != nil && them != nil && q != them
+//@   ensures[both-streams-merged] r6LSMerges == old(r6LSMerges) + 2 && r6LSSamplesCalls == old(r6LSSamplesCalls) + 2
+//@   ensures[each-merge-takes-the-samples-just-read] r6LSMergeFrom != nil && r6LSMergeFrom == r6LSSamplesOf
+//@   ensures[nothing-dropped] r6LSResets == old(r6LSResets) && r6LSInserts == old(r6LSInserts) && r6LSNews == old(r6LSNews)
+//   the two index variables end as the OTHER index of each aggregate (first merge: the two current windows, second merge: the two other ones)
+//@   ensures[both-indices-toggled] final(iUs) == 1 - atlock(q.currentIndex, "Mutex") && final(iThem) == 1 - atlock(them.currentIndex, "Mutex")
+//@   modifies q.currentIndex, q.currentStream, q.lastMoveWindow, them.currentIndex, them.currentStream, them.lastMoveWindow, r6LSCalls
+
+//@ immutable Quantile.MoveWindowTime, Quantile.Percentiles
+//@ constructors quantile.New
+
+// QueryHandler: a NEW stream for the configured percentiles into which the samples of BOTH windows are merged (two Merge calls, both into
+// the new stream, each fed by the Samples() call made right before it); the window is moved first, only as far as the clock demands.
+//@ func (q *Quantile) QueryHandler() *quantile.Stream
+//@   props C13
+//@   nochan
+//@   requires q != nil
+//@   ensures[new-stream-for-the-percentiles] result != nil && result == r6LSNewLast && r6LSNews == old(r6LSNews) + 1 && r6LSTargets(result) == q.Percentiles
+//@   ensures[both-windows-merged-into-it] r6LSMerges == old(r6LSMerges) + 2 && r6LSSamplesCalls == old(r6LSSamplesCalls) + 2 && r6LSMergeInto == result && r6LSMergePrevInto == result
+//@   ensures[each-merge-takes-the-samples-just-read] r6LSMergeFrom != nil && r6LSMergeFrom == r6LSSamplesOf
+//@   ensures[nothing-inserted] r6LSInserts == old(r6LSInserts)
+//@   ensures[window-moves-only-with-time] r6LSResets == old(r6LSResets) ==> atunlock(q.lastMoveWindow) == atlock(q.lastMoveWindow) && atunlock(q.currentIndex) == atlock(q.currentIndex)
+//@   ensures[moved-only-when-expired] r6LSResets > old(r6LSResets) ==> unixNano(lastNow) > unixNano(atunlock(q.lastMoveWindow))
+//@   ensures[window-of-now] unixNano(lastNow) <= unixNano(atunlock(q.lastMoveWindow)) + q.MoveWindowTime
+//@   modifies q.currentIndex, q.currentStream, q.lastMoveWindow, lastNow, r6LSCalls
+//@   loop 0
+//@     invariant[locked] holdsw(q, "Mutex")
+//@     invariant[index] q.currentIndex <= 1
+//@     invariant[stream] q.currentStream != nil
+//@     invariant[clock] now == lastNow
+//@     invariant[moves] r6LSResets >= atloop(r6LSResets) && unixNano(q.lastMoveWindow) == unixNano(atloop(q.lastMoveWindow)) + (r6LSResets - atloop(r6LSResets)) * q.MoveWindowTime
+//@     invariant[unmoved] r6LSResets == atloop(r6LSResets) ==> q.lastMoveWindow == atloop(q.lastMoveWindow) && q.currentIndex == atloop(q.currentIndex)
+//@     invariant[moved-only-when-expired] r6LSResets > atloop(r6LSResets) ==> unixNano(now) > unixNano(q.lastMoveWindow)
+//@     invariant[quiet] r6LSInserts == atloop(r6LSInserts) && r6LSMerges == atloop(r6LSMerges) && r6LSNews == atloop(r6LSNews) && r6LSSamplesCalls == atloop(r6LSSamplesCalls)
+
+// Result: always a report object. For a nil aggregate an empty one; otherwise ONE entry per configured percentile, in the configured
+// order, each a new map {"quantile": p, "value": what the merged stream answers for p}, and the merged stream's count.
+//@ func (q *Quantile) Result() *Result
+//@   props C13 C18
+//@   nochan
+//@   ensures[always-a-report] result != nil && fresh(result)
+//@   ensures[nil-aggregate-empty-report] q == nil ==> result.Count == 0 && len(result.Percentiles) == 0
+//@   ensures[one-entry-per-configured-percentile] q != nil ==> len(result.Percentiles) == len(q.Percentiles)
+//@   ensures[entries-in-configured-order] q != nil ==> (forall k int :: {result.Percentiles[k]} 0 <= k && k < len(q.Percentiles) ==> result.Percentiles[k] != nil &&
+//@        result.Percentiles[k]["quantile"] == q.Percentiles[k] && result.Percentiles[k]["value"] == r6LSQueryAt(r6LSNewLast, r6LSCalls, q.Percentiles[k]))
+//@   ensures[count-of-the-merged-stream] q != nil ==> result.Count == r6LSCountAt(r6LSNewLast, r6LSCalls)
+//@   ensures[one-query-stream] q != nil ==> r6LSNews == old(r6LSNews) + 1 && r6LSMerges == old(r6LSMerges) + 2
+//@   modifies q.currentIndex, q.currentStream, q.lastMoveWindow, lastNow, r6LSCalls
+//@   loop 0
+//@     invariant[report] fresh(result.Percentiles) && len(result.Percentiles) == len(q.Percentiles) && queryHandler == r6LSNewLast && queryHandler != nil && r6LSCalls == atloop(r6LSCalls)
+//@     invariant[filled-so-far] forall k int :: {result.Percentiles[k]} 0 <= k && k <= rangeindex ==> result.Percentiles[k] != nil && allocated(result.Percentiles[k]) &&
+//@        result.Percentiles[k]["quantile"] == q.Percentiles[k] && result.Percentiles[k]["value"] == r6LSQueryAt(queryHandler, r6LSCalls, q.Percentiles[k])
+
+// String: one text per entry of the report, in order - NanoSecondToHuman of the entry's "value" - joined with ", ".
+//@ func (r *Result) String() string
+//@   props C13
+//@   nochan
+//@   requires r != nil
+//@   ensures[joined-with-comma] r6LJoins == old(r6LJoins) + 1 && result == r6LJoinOut && r6LJoinSep == ", " && r6LJoinItems == final(s)
+//@   ensures[one-text-per-entry] len(final(s)) == len(r.Percentiles)
+//@   ensures[each-text-is-the-entry-value] forall k int :: {final(s)[k]} 0 <= k && k < len(r.Percentiles) ==> final(s)[k] == r6LHuman(r6LEntry(r.Percentiles[k], "value"))
+//@   modifies r6LJoins
+//@   loop 0
+//@     invariant[one-text-each] len(s) == rangeindex + 1 && rangeindex < len(r.Percentiles) && r6LJoins == old(r6LJoins)
+//@     invariant[own-list] cap(s) == 0 || fresh(base(s))
+//@     invariant[texts-so-far] forall k int :: {s[k]} 0 <= k && k <= rangeindex ==> s[k] == r6LHuman(r6LEntry(r.Percentiles[k], "value"))
+//@     invariant[report-kept] r.Percentiles == old(r.Percentiles)
+
+// What a Go map lookup yields: the stored value, 0 for a missing key (or a nil map).
+//@ fn r6LEntry(m map[string]float64, k string) float64 := has(m, k) ? m[k] : 0
+
+// The sort.Interface of the merged aggregate (sort.Sort(e) in Add). NOTE: Less compares the key "percentile", which no entry ever has
+// (UnmarshalJSON and Add write "quantile"): it compares 0 with 0 for well-formed entries, so the sort is the identity (observation O2 of the notes).
+//@ func (e *E2eProcessingLatencyAggregate) Len() int
+//@   props C18
+//@   nochan
+//@   requires e != nil
+//@   ensures[length] result == len(e.Percentiles)
+//@   modifies
+
+//@ func (e *E2eProcessingLatencyAggregate) Swap(i, j int)
+//@   props C18
+//@   nochan
+//@   requires e != nil && 0 <= i && i < len(e.Percentiles) && 0 <= j && j < len(e.Percentiles)
+//@   ensures[swapped] e.Percentiles[i] == old(e.Percentiles[j]) && e.Percentiles[j] == old(e.Percentiles[i])
+//@   ensures[others-kept] forall k int :: {e.Percentiles[k]} k != i && k != j ==> e.Percentiles[k] == old(e.Percentiles[k])
+//@   modifies elems(e.Percentiles)
+
+//@ func (e *E2eProcessingLatencyAggregate) Less(i, j int) bool
+//@   props C18
+//@   nochan
+//@   requires e != nil && 0 <= i && i < len(e.Percentiles) && 0 <= j && j < len(e.Percentiles)
+//@   ensures[descending-by-the-key-percentile] result == (r6LEntry(e.Percentiles[i], "percentile") > r6LEntry(e.Percentiles[j], "percentile"))
+//@   ensures[no-order-without-that-key] !has(e.Percentiles[i], "percentile") && !has(e.Percentiles[j], "percentile") ==> !result
+//@   modifies
